@@ -62,6 +62,9 @@ const (
 	IntSize = 8 // HTCondor sends 64-bit integers
 	// MaxFrameSize maximum size for a single frame payload
 	MaxFrameSize = 1024 * 1024 // 1MB frames
+	// encryptedFrameOverhead is what AES-GCM adds to a frame on the wire: the
+	// 16-byte tag, plus the 16-byte IV on a direction's first protected frame.
+	encryptedFrameOverhead = 32
 	// TargetFrameSize optimal frame size for network efficiency
 	TargetFrameSize = 16 * 1024 // 16KB frames
 )
@@ -170,6 +173,17 @@ func NewMessageForStream(stream StreamInterface) *Message {
 		isEOM:     false,
 		finished:  false,
 	}
+}
+
+// maxFramePayload is the largest payload the message layer places in a single
+// frame. On an encrypted stream it leaves room for the AES-GCM overhead so the
+// frame still fits the stream's wire limit (which a receiver applies to the
+// encrypted length).
+func (m *Message) maxFramePayload() int {
+	if m.stream != nil && m.stream.IsEncrypted() {
+		return MaxFrameSize - encryptedFrameOverhead
+	}
+	return MaxFrameSize
 }
 
 // ensureData ensures there's enough data in the buffer for the requested read
@@ -570,7 +584,7 @@ func (m *Message) PutString(ctx context.Context, s string) error {
 	}
 
 	// For very large strings that exceed MaxFrameSize, handle specially
-	if needed > MaxFrameSize {
+	if needed > m.maxFramePayload() {
 		// Flush current frame if it has data
 		if m.buffer.Len() > 0 {
 			if err := m.FlushFrame(ctx, false); err != nil {
@@ -629,7 +643,7 @@ func (m *Message) PutStringBytes(ctx context.Context, b []byte) error {
 
 	// Large strings: flush, write the (encrypted) length prefix, then stream b and
 	// the null terminator via PutBytes (which splits across frames).
-	if needed > MaxFrameSize {
+	if needed > m.maxFramePayload() {
 		if m.buffer.Len() > 0 {
 			if err := m.FlushFrame(ctx, false); err != nil {
 				return err
@@ -676,7 +690,7 @@ func (m *Message) PutBytes(ctx context.Context, data []byte) error {
 	}
 
 	// If the data is larger than MaxFrameSize, we need to split it
-	if length > MaxFrameSize {
+	if length > m.maxFramePayload() {
 		// Split large data across multiple frames
 		offset := 0
 		for offset < length {
@@ -689,7 +703,7 @@ func (m *Message) PutBytes(ctx context.Context, data []byte) error {
 
 			// Determine how much to write in this frame
 			remaining := length - offset
-			chunkSize := MaxFrameSize
+			chunkSize := m.maxFramePayload()
 			if remaining < chunkSize {
 				chunkSize = remaining
 			}
